@@ -840,8 +840,6 @@ def grid(vars_, rng, limit):
 
 # ------------------------------------------------------------------------------------------------ the run
 def run(ctx):
-    t_start = time.time()
-    budget = ctx.pick(95.0, 1000.0)
     ctx.cov["rule"] = (
         "pairs (a,b) of integer expressions over + - * / ** unary-minus MOD MIN MAX and array accesses (depth<=4, "
         "variables n m i j k lambda, arrays a(:) b(:,:) idx(:)): b = rewrite of a that sympy regards as equal "
@@ -893,7 +891,7 @@ def run(ctx):
     st = {"c1": [], "c2": [], "c3": [], "c4": [], "seen_c1": set(), "seen_c2": set(), "seen_c3": set()}
 
     def limited(fn, *args):
-        with time_limit(ctx.pick(8, 20)):
+        with time_limit(ctx.pick(30, 60)):      # a time-out only drops the case (never a verdict)
             return fn(*args)
 
     def fsearch(a, b, want_equal, extra_vars=(), fix_env=None, limit=None):
@@ -944,7 +942,7 @@ def run(ctx):
         try:
             strs, names = impl.text([a, b])
             for e, txt in zip((a, b), strs):
-                if e not in st["seen_c1"] and len(st["c1"]) < ctx.pick(600, 6000):
+                if e not in st["seen_c1"] and len(st["c1"]) < ctx.pick(400, 5000):
                     st["seen_c1"].add(e)
                     st["c1"].append((e, txt, parse_py(txt, names)))
         except OutOfSubset as err:
@@ -952,7 +950,7 @@ def run(ctx):
         except Exception as err:        # pylint: disable=broad-except
             ctx.hist("text_exception", type(err).__name__)
         for e in (a, b):
-            if e in st["seen_c2"] or len(st["c2"]) >= ctx.pick(450, 4500) or size(e) > 14:
+            if e in st["seen_c2"] or len(st["c2"]) >= ctx.pick(300, 4000) or size(e) > 14:
                 continue
             st["seen_c2"].add(e)
             vs = variables(e)
@@ -976,7 +974,7 @@ def run(ctx):
                     ctx.hist("sympy_value_exception", type(err).__name__)
                     continue
                 st["c2"].append((e, qenv, real, mine))
-            if e not in st["seen_c3"] and len(st["c3"]) < ctx.pick(300, 3000):
+            if e not in st["seen_c3"] and len(st["c3"]) < ctx.pick(150, 2500):
                 st["seen_c3"].add(e)
                 env = ({x: rng.choice([-4, -3, -2, -1, 0, 1, 2, 3, 6]) for x in vs}, rng.randrange(4))
                 try:
@@ -1005,14 +1003,17 @@ def run(ctx):
                 k = limited(impl.oracle_const, ("bin", "-", tr(fixed, a), tr(fixed, b)))
                 meq, mne = (k == 0), (k is not None and k != 0)
             except Exception as err:        # pylint: disable=broad-except
-                meq = mne = False
+                meq = mne = None              # unknown (time-out under load, ...): C5 is skipped for this pair
                 ctx.hist("model_oracle_exception", type(err).__name__)
             for site, claimed, model in (("equal", eq is True, meq), ("never_equal", ne is True, mne)):
                 if not claimed:
                     continue
                 fails, evaluated = fsearch(a, b, site == "equal")
                 ctx.hist("grid_points_evaluated", "total", evaluated)
-                if not model:
+                if model is None:
+                    if fails:
+                        explain(site, a, b, fails[0], True, True)
+                elif not model:
                     ctx.cov["disagreements_checked"] += 1
                     if not fails:
                         fails, _ = fsearch(a, b, site == "equal", limit=400)
@@ -1024,18 +1025,18 @@ def run(ctx):
                 elif fails:
                     explain(site, a, b, fails[0], True, True)
             if isinstance(eq, bool) and isinstance(ne, bool) and is_polynomial(a) and is_polynomial(b) \
-                    and len(st["c4"]) < ctx.pick(500, 5000):
+                    and len(st["c4"]) < ctx.pick(200, 4000):
                 ctx.hist("polynomial_pairs_with_verdict", "equal" if eq else "never_equal")
                 st["c4"].append((a, b, eq, ne))
         add_corr(a, b)
 
     pairs = [("targeted", a, b) for a, b in TARGETED]
-    n_pairs = ctx.pick(800, 12000)
+    n_pairs = ctx.pick(450, 9000)
     t_pairs = time.time()
     for kind, a, b in pairs:
         check_pair(kind, a, b)
     done = len(pairs)
-    while done < n_pairs and time.time() - t_start < budget * ctx.pick(0.55, 0.6):
+    while done < n_pairs:
         kind, a, b = gen.pair()
         if size(a) + size(b) > 60:
             continue
@@ -1061,8 +1062,9 @@ def run(ctx):
             msol = limited(sp.solvers.solveset, impl.to_sympy(tr(fixed, a)) - impl.to_sympy(tr(fixed, b)), sp.Symbol(x))
             same = (msol is sp.EmptySet and not sols) or (isinstance(msol, sp.FiniteSet) and
                                                          sorted(map(str, msol)) == sorted(map(str, sols)))
-        except Exception:        # pylint: disable=broad-except
-            same = False
+        except Exception as err:        # pylint: disable=broad-except
+            same = True                       # unknown (time-out, solver error in the model run): C5 skipped
+            ctx.hist("model_solve_exception", type(err).__name__)
         for sol in sols:
             others = sorted((set(variables(a)) | set(variables(b)) | {str(s) for s in sol.free_symbols}) - {x})
             found = None
@@ -1094,8 +1096,8 @@ def run(ctx):
     t_ph = time.time()
     for a, b, x in TARGETED_SOLVE:
         check_solve(a, b, x)
-    n_solve, k_solve = ctx.pick(70, 1200), 0
-    while k_solve < n_solve and time.time() - t_start < budget * ctx.pick(0.68, 0.75):
+    n_solve, k_solve = ctx.pick(40, 900), 0
+    while k_solve < n_solve:
         x = rng.choice(["i", "j"])
         profile = rng.choice(["poly", "frag", "full"])
         a = gen.expr(2, profile)
@@ -1148,8 +1150,8 @@ def run(ctx):
     t_ph = time.time()
     for e in TARGETED_EXPAND:
         check_expand(e)
-    n_exp, k_exp = ctx.pick(110, 1500), 0
-    while k_exp < n_exp and time.time() - t_start < budget * ctx.pick(0.78, 0.85):
+    n_exp, k_exp = ctx.pick(60, 1200), 0
+    while k_exp < n_exp:
         profile = rng.choice(["poly", "frag", "frag", "full"])
         e = bop("*", gen.expr(2, profile), bop(rng.choice("+-"), gen.expr(1, profile), gen.expr(1, profile)))
         if rng.random() < 0.3:
@@ -1176,14 +1178,11 @@ def run(ctx):
     t_ph = time.time()
     tagged = [("K1", k, c) for k, c in enumerate(c1)] + [("K2", k, c) for k, c in enumerate(c2)] + \
              [("K3", k, c) for k, c in enumerate(c3)] + [("K4", k, c) for k, c in enumerate(c4)]
-    import os
-    if os.environ.get('C17_DEBUG_KIND'):
-        tagged = [t for t in tagged if t[0] == os.environ['C17_DEBUG_KIND']]
     rng2 = ctx.rng("shuffle")
     rng2.shuffle(tagged)                     # balance the shards
     header2 = header.replace("C17.Model.", "C17.Model C17.Cases.")
     failing = ctx.coq_eval_failing(header2, "ccase", "chk_case %s" % fx, ["(%s %s)" % (t, c) for t, _, c in tagged],
-                                   shard=max(60, (len(tagged) + 7) // 8)) if tagged else []
+                                   shard=max(60, (len(tagged) + 3) // 4)) if tagged else []
     bad = {"K1": [], "K2": [], "K3": [], "K4": []}
     for i in failing:
         bad[tagged[i][0]].append(tagged[i][1])
